@@ -30,3 +30,14 @@ Definition wf_schema (sc : schema) : bool := nodupb (concat sc).
 (* every key a writer emits is the primary key of a field its reader knows *)
 Definition writer_read (w : list str) (sc : schema) : bool :=
   forallb (fun k => existsb (fun syn => match syn with p :: _ => str_eqb k p | [] => false end) sc) w.
+
+(* primary key of every field *)
+Definition primaries (sc : schema) : list str := flat_map (fun syn => match syn with p :: _ => [p] | [] => [] end) sc.
+Definition mem_str (k : str) (l : list str) : bool := existsb (str_eqb k) l.
+(* every key a reader looks up in the processed dictionary is the primary key of one of its fields (else the look-up never finds
+   what an alias - or the writer - provided) *)
+Definition reads_primary (uses : list str) (sc : schema) : bool := forallb (fun k => mem_str k (primaries sc)) uses.
+(* every field a reader accepts is looked up (by the reader itself, or before it is entered: `dispatch`): no accepted key is ignored *)
+Definition fields_read (dispatch uses : list str) (sc : schema) : bool := forallb (fun k => mem_str k uses || mem_str k dispatch) (primaries sc).
+(* every field of the reader is written by the writer: nothing the reader can take is dropped on the way out *)
+Definition fields_written (w : list str) (sc : schema) : bool := forallb (fun k => mem_str k w) (primaries sc).
